@@ -429,6 +429,16 @@ func (l *lineage) duplicate(m *member) *member {
 }
 
 func (l *lineage) mate(m1, m2 *member, method string, f1, f2 float64) *member {
+	// Genome.Id is not an identity: every species numbers its babies from 0 and interspecies mating meets the first
+	// organism of another species, so two DIFFERENT parents regularly carry the same id.  Every third mating of two
+	// different genomes is made under equal ids (restored afterwards).
+	l.stats["mate-calls"]++
+	if m1.g != m2.g && l.stats["mate-calls"]%3 == 2 && m1.g.Id != m2.g.Id {
+		old := m2.g.Id
+		m2.g.Id = m1.g.Id
+		l.stats["mate-of-different-genomes-with-equal-ids"]++
+		defer func() { m2.g.Id = old }()
+	}
 	p1pre, p2pre := l.in.genome(m1.g), l.in.genome(m2.g)
 	var c *genetics.Genome
 	var err error
